@@ -115,4 +115,89 @@ theorem untouched_full (Γ : Nat → Expr.FieldTy) (ρ : Nat → Int) (init : Ar
 example : (maxProp [(0, 15)] 6).1 = [(0, 6)] := by decide
 example : (maxProp [(0, 3), (5, 9), (12, 15)] 7).1 = [(0, 3), (5, 7)] := by decide
 
+/-! ### lower bounds -/
+
+/-- ascending and separated: the shape `VariableBoundModel` domains are kept in -/
+def Asc (l : RL) : Prop := l.Pairwise fun a b => a.2 < b.1
+
+theorem asc_get (l : RL) (h : Asc l) (i j : Nat) (hij : i < j) (hj : j < l.length) :
+    (l[i]'(by omega)).2 < (l[j]).1 := by
+  unfold Asc at h
+  exact List.pairwise_iff_getElem.mp h i j (by omega) hj hij
+
+theorem den_setLo_zero (r0 : Int × Int) (rs : RL) (mn v : Int) (h : Den (r0 :: rs) v) (hv : mn ≤ v) :
+    Den (setLo (r0 :: rs) 0 mn) v := by
+  obtain ⟨r, hr, h1, h2⟩ := h
+  have e : setLo (r0 :: rs) 0 mn = (mn, r0.2) :: rs := by
+    unfold setLo
+    apply List.ext_getElem
+    · simp
+    · intro i h1 h2
+      simp only [List.getElem_mapIdx]
+      cases i with
+      | zero => simp
+      | succ i => simp
+  rw [e]
+  rcases List.mem_cons.mp hr with rfl | hr
+  · exact ⟨(mn, r.2), List.mem_cons_self .., hv, h2⟩
+  · exact ⟨r, List.mem_cons_of_mem _ hr, h1, h2⟩
+
+/-- **Lower bounds are sound.**  `VariableBoundMinPropagator` with limit `mn` (created for
+    `f >= mn` / `f > mn - 1`) keeps every value of an ascending domain that is at least `mn` -/
+theorem minProp_keeps (l : RL) (mn v : Int) (hasc : Asc l) (hwf : ∀ r ∈ l, r.1 ≤ r.2) (h : Den l v) (hv : mn ≤ v) :
+    Den (minProp l mn).1 v := by
+  obtain ⟨r, hr, h1, h2⟩ := h
+  obtain ⟨k, hk, hkr⟩ := List.getElem_of_mem hr
+  unfold minProp
+  cases hlast : l.getLast? with
+  | none =>
+    have : l = [] := by simpa using hlast
+    subst this; simp at hr
+  | some rl =>
+    simp only
+    have hne : l ≠ [] := by intro e; subst e; simp at hr
+    have hl : l.getLast hne = rl := by
+      have := List.getLast?_eq_some_getLast hne
+      rw [this] at hlast; simpa using hlast
+    have hlastidx : l[l.length - 1]'(by have := List.length_pos_iff.mpr hne; omega) = rl := by
+      rw [← hl, List.getLast_eq_getElem]
+    by_cases hgt : mn > rl.2
+    · -- every range ends at or before the last one: no value ≥ mn is in the domain
+      exfalso
+      have hle : r.2 ≤ rl.2 := by
+        by_cases hkl : k = l.length - 1
+        · subst hkl; rw [← hkr, hlastidx]
+        · have := asc_get l hasc k (l.length - 1) (by omega) (by omega)
+          rw [hkr, hlastidx] at this
+          have hlo : rl.1 ≤ rl.2 := hwf rl (by rw [← hl]; exact List.getLast_mem hne)
+          omega
+      omega
+    · simp only [hgt, if_false]
+      cases hfind : (List.range l.length).reverse.find? (fun j => decide ((l.getD j (0, 0)).1 < mn)) with
+      | none => exact ⟨r, hr, h1, h2⟩
+      | some i =>
+        simp only
+        have hp := List.find?_some hfind
+        have hmem := List.mem_of_find?_eq_some hfind
+        have hi : i < l.length := by simpa using hmem
+        have hlo : (l[i]).1 < mn := by
+          have : (l.getD i (0, 0)) = l[i] := by simp [List.getD, hi]
+          rw [this] at hp; simpa using hp
+        by_cases hi0 : i > 0
+        · simp only [hi0, if_true]
+          -- ranges before index i end below mn
+          have hki : i ≤ k := by
+            by_contra hc
+            have := asc_get l hasc k i (by omega) hi
+            rw [hkr] at this
+            omega
+          refine ⟨r, ?_, h1, h2⟩
+          rw [← hkr]
+          exact List.mem_drop_iff_getElem.mpr ⟨k - i, by omega, by congr 1; omega⟩
+        · simp only [hi0, if_false]
+          have : i = 0 := by omega
+          cases l with
+          | nil => simp at hr
+          | cons r0 rs => exact den_setLo_zero r0 rs mn v ⟨r, hr, h1, h2⟩ hv
+
 end Pyvsc.C14
